@@ -78,13 +78,19 @@ def run_direct(chk, n_cfg):
                     e.code = b[1]
                     raise e
         conn.reactor = Stub()
-        # incoming history
+        # incoming history (the dispatch routine is private: it is looked up by its present name; if a rewrite renames it, this
+        # direct suite is skipped and the same order is still checked through the simulated transport below)
+        react = getattr(conn, '_react', None)
+        if react is None:
+            if 'direct incoming suite skipped: Connection has no _react' not in chk.assumptions:
+                chk.assumptions.append('direct incoming suite skipped: Connection has no _react')
+            continue
         outcome = [0]
         for k, ci in packets:
             p = classes[ci](context=ConnectionContext(protocol_version=757))
             p.key, p.v = k, 1
             try:
-                conn._react(p)
+                react(p)
             except Boom as e:
                 outcome = [2, e.code]
                 break
@@ -119,7 +125,7 @@ def run_direct(chk, n_cfg):
                 return orig(data)
             conn.socket.send = send
             try:
-                conn._write_packet(p)
+                conn.write_packet(p, force=True)          # the public entry point: a forced write goes straight to the socket
             except Boom as e:
                 outcome = [2, e.code]
             except OSError:
